@@ -182,6 +182,21 @@ CHECKS = {
              'min with or without a bound key, every comparison phrase, between, aggregate-vs-aggregate; `for each` discriminants and '
              '`such that` are not modelled.',
         design='DESIGN.md §6 C02'),
+    'C04': dict(
+        technique='Lean 4 proof: weak constraints and optimal answer sets over the answer-set semantics of C01, cost lemmas per preference form, '
+                  'table theorems over the regenerated direction / priority / sign tables; statement-by-statement correspondence; optimum '
+                  'search with clingo optN',
+        text='Lean theorems: C04_main (optimal answer sets of the compiled program = models of the direct reading that no such model beats, '
+             'for every stratified core specification and every list of preferences); an aggregate preference costs exactly the aggregate\'s '
+             'value (negated for a maximisation); a situation preference costs one unit per distinct parameter tuple for which the situation '
+             'holds; the cost of a level is a function of the interpretation; an optimal answer set is cheapest at the highest level; '
+             'direction (partial: 3 of 4 phrases), sign and priority tables over the live callbacks.',
+        note='PARTIAL for "as much as possible": the live callback gives it the direction of "as little as possible" (finding F3, kernel-checked '
+             'witness Findings/C04.lean; pinned by an existing test). Trusted: Lean kernel; clingo\'s optimisation = Asp/Opt.lean (validated per '
+             'run: clingo optN on the real output vs the optimal models of the direct reading); the generator\'s resolved form (checked per run '
+             'by the statement-by-statement correspondence). Preferences of one specification get distinct priorities; the variable form\'s cost '
+             'lemma is not proved (its weak constraint is compared syntactically and its optimum is searched).',
+        design='DESIGN.md §6 C04'),
 }
 
 NOT_YET = {}
